@@ -10,8 +10,10 @@
 //                       their fields (`lbl_wf`)
 //   xtis_of(recs)       the XTI table: the first cXTI 6-byte entries of every ExternSheet record (as many of them as the record holds
 //                       completely), in record order
-//   final_text(..)      "<sheet name>!<reference>" with the sheet name of BoundSheet8 number XTI[ixti].itabFirst, "#REF" when ixti or
-//                       itabFirst is out of range; the bare text when the formula names no sheet
+//   final_text(..)      "<sheet name>!<reference>" with the sheet name of BoundSheet8 number XTI[ixti].itabFirst when XTI[ixti].iSupBook
+//                       designates the self-referencing SupBook (this workbook); "#REF" when ixti or itabFirst is out of range or the XTI
+//                       entry designates another SupBook (external workbook, add-in, DDE / OLE link: itabFirst is then no sheet of this
+//                       workbook); the bare text when the formula names no sheet
 
 // ---- stand-ins for foreign types (opaque plumbing; never inspected by the verified code) -- as in unit xlswb
 pub struct VbaProject { _opaque: u8 }
@@ -91,6 +93,10 @@ pub assume_specification<T, A: std::alloc::Allocator, I: IntoIterator<Item = T>>
 pub assume_specification<T, U, F: FnOnce(T) -> U>[ Option::<T>::map_or ](o: Option<T>, d: U, f: F) -> (r: U)
     requires o matches Some(v) ==> call_requires(f, (v,)),
     ensures o is None ==> r == d, o matches Some(v) ==> call_ensures(f, (v,), r);
+// TRUSTED: Option::filter (core::option documentation): None for None; for Some(v) the predicate decides between Some(v) and None
+pub assume_specification<T, P: FnOnce(&T) -> bool>[ Option::<T>::filter ](o: Option<T>, p: P) -> (r: Option<T>)
+    requires o matches Some(v) ==> call_requires(p, (&v,)),
+    ensures o is None ==> r is None, o matches Some(v) ==> (call_ensures(p, (&v,), true) && r == Some(v)) || (call_ensures(p, (&v,), false) && r is None);
 // TRUSTED: Result::unwrap_or_else (core::result documentation): the Ok value, or op(error)
 pub assume_specification<T, E, F: FnOnce(E) -> T>[ Result::<T, E>::unwrap_or_else ](x: Result<T, E>, op: F) -> (r: T)
     requires x matches Err(e) ==> call_requires(op, (e,)),
@@ -365,15 +371,29 @@ pub open spec fn supbooks_of(rs: Seq<RecV>) -> Seq<Seq<u8>>
 {
     if rs.len() == 0 { Seq::empty() } else if rs.last().typ == 0x01AE { supbooks_of(rs.drop_last()).push(rs.last().data) } else { supbooks_of(rs.drop_last()) }
 }
+/// what the globals loop keeps of the SupBook records: is it the self-referencing one
+spec fn sup_flags(sb: Seq<Seq<u8>>) -> Seq<bool> { Seq::new(sb.len(), |i: int| is_self_supbook(sb[i])) }
 /// the XTI entry points into this workbook (only then itabFirst indexes THIS workbook's BoundSheet8 list)
 spec fn xti_internal(x: Xti, sb: Seq<Seq<u8>>) -> bool { (x._isup_book as int) < sb.len() && is_self_supbook(sb[x._isup_book as int]) }
-/// name of the sheet an XTI index stands for: BoundSheet8 number itabFirst of entry ixti; "#REF" when either index is out of range
-/// (itabFirst -1: deleted sheet, -2: workbook-level reference)
-spec fn sheet_ref(xtis: Seq<Xti>, sheets: Seq<(usize, String)>, i: usize) -> Seq<char> {
-    if i < xtis.len() && 0 <= xtis[i as int].itab_first < sheets.len() { sheets[xtis[i as int].itab_first as int].1@ } else { "#REF"@ }
+/// [MS-XLS] 2.5.277: "iSupBook MUST be a valid index in the array of SupBook records"
+spec fn xti_valid(x: Xti, sb: Seq<Seq<u8>>) -> bool { (x._isup_book as int) < sb.len() }
+/// name of the sheet an XTI index stands for: BoundSheet8 number itabFirst of entry ixti if that entry points into this workbook;
+/// "#REF" when either index is out of range (itabFirst -1: deleted sheet, -2: workbook-level reference) or the entry designates
+/// another workbook / an add-in / a DDE or OLE link
+spec fn sheet_ref(xtis: Seq<Xti>, sheets: Seq<(usize, String)>, sb: Seq<Seq<u8>>, i: usize) -> Seq<char> {
+    if i < xtis.len() && xti_internal(xtis[i as int], sb) && 0 <= xtis[i as int].itab_first < sheets.len() { sheets[xtis[i as int].itab_first as int].1@ } else { "#REF"@ }
 }
-spec fn final_text(xtis: Seq<Xti>, sheets: Seq<(usize, String)>, ixti: Option<usize>, text: Seq<char>) -> Seq<char> {
-    match ixti { Some(i) => sheet_ref(xtis, sheets, i) + seq!['!'] + text, None => text }
+spec fn final_text(xtis: Seq<Xti>, sheets: Seq<(usize, String)>, sb: Seq<Seq<u8>>, ixti: Option<usize>, text: Seq<char>) -> Seq<char> {
+    match ixti { Some(i) => sheet_ref(xtis, sheets, sb, i) + seq!['!'] + text, None => text }
+}
+/// what the code does with the flags it kept (`fl`): an XTI entry whose iSupBook has no SupBook record at all (malformed file) is
+/// resolved like an internal one
+spec fn sheet_ref_c(xtis: Seq<Xti>, sheets: Seq<(usize, String)>, fl: Seq<bool>, i: usize) -> Seq<char> {
+    if i < xtis.len() && !((xtis[i as int]._isup_book as int) < fl.len() && !fl[xtis[i as int]._isup_book as int])
+        && 0 <= xtis[i as int].itab_first < sheets.len() { sheets[xtis[i as int].itab_first as int].1@ } else { "#REF"@ }
+}
+spec fn final_text_c(xtis: Seq<Xti>, sheets: Seq<(usize, String)>, fl: Seq<bool>, ixti: Option<usize>, text: Seq<char>) -> Seq<char> {
+    match ixti { Some(i) => sheet_ref_c(xtis, sheets, fl, i) + seq!['!'] + text, None => text }
 }
 /// what the globals loop has collected: one entry per Lbl record so far
 spec fn lbl_acc(v: Seq<(String, (Option<usize>, String))>, ls: Seq<LblV>) -> bool {
@@ -383,13 +403,13 @@ spec fn lbl_acc(v: Seq<(String, (Option<usize>, String))>, ls: Seq<LblV>) -> boo
 spec fn xti_acc(v: Seq<Xti>, xs: Seq<Xti>) -> bool { v == xs }
 /// `metadata.names`: one entry per Lbl record, in order: (name, reference text prefixed with its sheet)
 /// (name and reference are pinned down for the Lbl records that are exactly their fields; the reference text for the formulas of
-/// `dn_known` whose XTI entry, if any, points into this workbook)
+/// `dn_known` whose XTI entry, if any, has a valid iSupBook)
 spec fn names_final(names: Seq<(String, String)>, ls: Seq<LblV>, xtis: Seq<Xti>, sheets: Seq<(usize, String)>, sb: Seq<Seq<u8>>) -> bool {
     names.len() == ls.len() && forall|k: int| 0 <= k < names.len() && ls[k].wf ==> (#[trigger] names[k]).0@ == ls[k].name
-        && (dn_known(ls[k].rgce) && ixti_internal(dn_val(ls[k].rgce).0, xtis, sb) ==> names[k].1@ == final_text(xtis, sheets, dn_val(ls[k].rgce).0, dn_val(ls[k].rgce).1))
+        && (dn_known(ls[k].rgce) && ixti_valid(dn_val(ls[k].rgce).0, xtis, sb) ==> names[k].1@ == final_text(xtis, sheets, sb, dn_val(ls[k].rgce).0, dn_val(ls[k].rgce).1))
 }
-spec fn ixti_internal(ixti: Option<usize>, xtis: Seq<Xti>, sb: Seq<Seq<u8>>) -> bool {
-    match ixti { Some(i) => i < xtis.len() ==> xti_internal(xtis[i as int], sb), None => true }
+spec fn ixti_valid(ixti: Option<usize>, xtis: Seq<Xti>, sb: Seq<Seq<u8>>) -> bool {
+    match ixti { Some(i) => i < xtis.len() ==> xti_valid(xtis[i as int], sb), None => true }
 }
 
 // TRUSTED: a Vec of a non-zero-sized element type never holds more than isize::MAX elements (alloc::vec: "Vec ... never allocate more than
@@ -405,11 +425,11 @@ proof fn lemma_neg_i16_as_usize(x: i16)
     if x < 0 { assert((x as usize) > 0x7FFF_FFFF_FFFF_FFFFusize) by (bit_vector) requires x < 0i16; }
 }
 /// the post-processing of one collected entry: the text gets the sheet prefix
-spec fn dn_post_at(out: Seq<(String, String)>, inp: Seq<(String, (Option<usize>, String))>, xtis: Seq<Xti>, sheets: Seq<(usize, String)>, j: int) -> bool {
-    out[j].0 == inp[j].0 && out[j].1@ == final_text(xtis, sheets, inp[j].1.0, inp[j].1.1@)
+spec fn dn_post_at(out: Seq<(String, String)>, inp: Seq<(String, (Option<usize>, String))>, xtis: Seq<Xti>, sheets: Seq<(usize, String)>, fl: Seq<bool>, j: int) -> bool {
+    out[j].0 == inp[j].0 && out[j].1@ == final_text_c(xtis, sheets, fl, inp[j].1.0, inp[j].1.1@)
 }
-spec fn dn_post(out: Seq<(String, String)>, inp: Seq<(String, (Option<usize>, String))>, xtis: Seq<Xti>, sheets: Seq<(usize, String)>) -> bool {
-    out.len() == inp.len() && forall|j: int| 0 <= j < out.len() ==> #[trigger] dn_post_at(out, inp, xtis, sheets, j)
+spec fn dn_post(out: Seq<(String, String)>, inp: Seq<(String, (Option<usize>, String))>, xtis: Seq<Xti>, sheets: Seq<(usize, String)>, fl: Seq<bool>) -> bool {
+    out.len() == inp.len() && forall|j: int| 0 <= j < out.len() ==> #[trigger] dn_post_at(out, inp, xtis, sheets, fl, j)
 }
 
 /// witnesses of the `requires` of the callees: <[T]>::chunks_exact n != 0 (the only call site passes 6); read_u16 / read_i16 (common/bytes.rs): 2 bytes
@@ -451,6 +471,8 @@ let stream = (match \g<1> { Ok(__v) => Ok(__v), Err(_) => \g<2> })?;
                     lbl_acc(defined_names@, lbls_of(done, g0, forced)),
                     //# C16.xti_table_collected_in_order
                     xti_acc(xtis@, xtis_of(done)),
+                    //# C16.supbook_records_collected_in_order
+                    supbooks@ == sup_flags(supbooks_of(done)),
                 ensures
                     recs(s0) == done,
                 decreases __it0.s().len(),
@@ -470,9 +492,20 @@ let stream = (match \g<1> { Ok(__v) => Ok(__v), Err(_) => \g<2> })?;
                         lemma_sheets_push(g_fold(done_in, g0, forced).sheets, sheet_of(v, encoding, biff)->Some_0);
                         assert(v.typ != 0x0018 ==> lbls_of(done, g0, forced) == lbls_of(done_in, g0, forced));
                         assert(v.typ != 0x0017 ==> xtis_of(done) == xtis_of(done_in));
+                        assert(v.typ != 0x01AE ==> supbooks_of(done) == supbooks_of(done_in));
                     }
                     cur = __it0.s();
                 }
+//@@ before /supbooks\.push\(/
+                        proof {
+                            let d = v.data;
+                            if d.len() >= 4 { assert(d.subrange(2, d.len() as int)[0] == d[2] && d.subrange(2, d.len() as int)[1] == d[3]); }
+                        }
+//@@ after /supbooks\.push\([^;]*;/
+                        proof {
+                            assert(supbooks_of(done) == supbooks_of(done_in).push(v.data));
+                            assert(supbooks@ =~= sup_flags(supbooks_of(done)));
+                        }
 //@@ before /let cch = /
                         proof {
                             let d = v.data;
@@ -565,36 +598,36 @@ let fmla_sheet_names = { let mut __out: Vec<String> = Vec::new();
                 __out.push(\g<1>);
             }
             __out };
-//@@ replace /let defined_names = defined_names\s*\.into_iter\(\)\s*\.map\(\|\(name, \(i, mut f\)\)\| \{(.*?)\.and_then\(\|xti\| (.*?)\)\s*\.map_or\(("#REF"), \|sh\| (.*?)\);\s*f = format!\("\{sh\}!\{f\}"\);(.*?)\}\)\s*\.collect::<Vec<_>>\(\);/ same Verus limitation (map + collect of a closure inside a generic impl): explicit loop pushing the closure's value for every element in order; the closure body is re-inserted verbatim in pieces (\g<1> .. \g<5>) around (a) the two inner closures, which get a Verus closure signature (their bodies \g<2>, \g<4> verbatim), and (b) `format!("{sh}!{f}")`, moved into the trusted wrapper verif_fmt_sheet_ref whose body is the same expression
-let defined_names = { let ghost __dn0 = defined_names@; let ghost __xt = xtis@; let ghost __sn = sheet_names@; let ghost __sb = supbooks_of(done);
+//@@ replace /let defined_names = defined_names\s*\.into_iter\(\)\s*\.map\(\|\(name, \(i, mut f\)\)\| \{(.*?)\.filter\(\|xti\| (.*?)\)\s*\.and_then\(\|xti\| (.*?)\)\s*\.map_or\(("#REF"), \|sh\| (.*?)\);\s*f = format!\("\{sh\}!\{f\}"\);(.*?)\}\)\s*\.collect::<Vec<_>>\(\);/ same Verus limitation (map + collect of a closure inside a generic impl): explicit loop pushing the closure's value for every element in order; the closure body is re-inserted verbatim in pieces (\g<1> .. \g<6>) around (a) the three inner closures, which get a Verus closure signature (their bodies \g<2>, \g<3>, \g<5> verbatim), and (b) `format!("{sh}!{f}")`, moved into the trusted wrapper verif_fmt_sheet_ref whose body is the same expression
+let defined_names = { let ghost __dn0 = defined_names@; let ghost __xt = xtis@; let ghost __sn = sheet_names@; let ghost __fl = supbooks@;
             let mut __out: Vec<(String, String)> = Vec::new();
             for __e in __itd: defined_names
                 invariant
-                    __itd.seq() == __dn0, xtis@ == __xt, sheet_names@ == __sn,
+                    __itd.seq() == __dn0, xtis@ == __xt, sheet_names@ == __sn, supbooks@ == __fl,
                     //# C16.defined_name_prefixed_with_its_sheet
-                    dn_post(__out@, __dn0.take(__itd.index@ as int), __xt, __sn),
+                    dn_post(__out@, __dn0.take(__itd.index@ as int), __xt, __sn, __fl),
             {
                 let ghost __k = __itd.index@ as int;
                 let ghost __o0 = __out@;
                 let (name, (i, mut f)) = __e;
                 let ghost __f0 = f@;
-                __out.push({ \g<1>.and_then(|xti: &Xti| -> (__r: Option<&(usize, String)>)
-                        ensures __r == (if (xti.itab_first as usize) < sheet_names@.len() { Some(&sheet_names@[(xti.itab_first as usize) as int]) } else { None::<&(usize, String)> })
+                __out.push({ \g<1>.filter(|xti: &&Xti| -> (__r: bool)
+                        ensures __r == !(((**xti)._isup_book as usize) < supbooks@.len() && !supbooks@[((**xti)._isup_book as usize) as int])
                     { \g<2> })
-                    .map_or(\g<3>, |sh: &(usize, String)| -> (__r: &str) ensures __r@ == sh.1@ { \g<4> });
-                    f = verif_fmt_sheet_ref(sh, &f);\g<5> });
+                    .and_then(|xti: &Xti| -> (__r: Option<&(usize, String)>)
+                        ensures __r == (if (xti.itab_first as usize) < sheet_names@.len() { Some(&sheet_names@[(xti.itab_first as usize) as int]) } else { None::<&(usize, String)> })
+                    { \g<3> })
+                    .map_or(\g<4>, |sh: &(usize, String)| -> (__r: &str) ensures __r@ == sh.1@ { \g<5> });
+                    f = verif_fmt_sheet_ref(sh, &f);\g<6> });
                 proof {
                     axiom_vec_len_isize(&sheet_names);
                     if i is Some && i->Some_0 < __xt.len() { lemma_neg_i16_as_usize(__xt[i->Some_0 as int].itab_first); }
-                    // XTI.iSupBook is never looked at ([MS-XLS] 2.5.277): itabFirst is taken for an index into THIS workbook's sheets even when
-                    // the entry designates an external workbook, an add-in or a DDE/OLE link
-                    //# C16.external_reference_resolved_against_own_sheets
-                    assert(ixti_internal(i, __xt, __sb));
                     assert(__dn0.take(__k + 1) =~= __dn0.take(__k).push(__dn0[__k]));
                     assert(__out@.last().0 == __dn0[__k].0);
-                    assert(__out@.last().1@ == final_text(__xt, __sn, __dn0[__k].1.0, __dn0[__k].1.1@));
-                    assert forall|j: int| 0 <= j < __out@.len() implies #[trigger] dn_post_at(__out@, __dn0.take(__k + 1), __xt, __sn, j) by {
-                        if j < __k { assert(dn_post_at(__o0, __dn0.take(__k), __xt, __sn, j)); assert(__out@[j] == __o0[j]); }
+                    //# C16.sheet_prefix_only_for_internal_xti
+                    assert(__out@.last().1@ == final_text_c(__xt, __sn, __fl, __dn0[__k].1.0, __dn0[__k].1.1@));
+                    assert forall|j: int| 0 <= j < __out@.len() implies #[trigger] dn_post_at(__out@, __dn0.take(__k + 1), __xt, __sn, __fl, j) by {
+                        if j < __k { assert(dn_post_at(__o0, __dn0.take(__k), __xt, __sn, __fl, j)); assert(__out@[j] == __o0[j]); }
                     }
                 }
             }
@@ -605,12 +638,22 @@ let defined_names = { let ghost __dn0 = defined_names@; let ghost __xt = xtis@; 
         let ghost dn_pre = defined_names@;
 //@@ before /let mut sheets = BTreeMap::new/
         proof {
-            assert(dn_post(defined_names@, dn_pre, xtis@, sheet_names@));
+            let sb = supbooks_of(done);
+            assert(dn_post(defined_names@, dn_pre, xtis@, sheet_names@, supbooks@));
             assert(lbl_acc(dn_pre, lb));
             assert forall|k: int| 0 <= k < defined_names@.len() && lb[k].wf implies (#[trigger] defined_names@[k]).0@ == lb[k].name
-                && (dn_known(lb[k].rgce) && ixti_internal(dn_val(lb[k].rgce).0, xtis@, supbooks_of(done)) ==> defined_names@[k].1@ == final_text(xtis@, sheet_names@, dn_val(lb[k].rgce).0, dn_val(lb[k].rgce).1)) by {
-                assert(dn_post_at(defined_names@, dn_pre, xtis@, sheet_names@, k));
+                && (dn_known(lb[k].rgce) && ixti_valid(dn_val(lb[k].rgce).0, xtis@, sb) ==> defined_names@[k].1@ == final_text(xtis@, sheet_names@, sb, dn_val(lb[k].rgce).0, dn_val(lb[k].rgce).1)) by {
+                assert(dn_post_at(defined_names@, dn_pre, xtis@, sheet_names@, supbooks@, k));
                 assert(dn_pre[k].0@ == lb[k].name);
+                // an XTI entry with a valid iSupBook: the kept flag decides exactly as the SupBook record does
+                if dn_known(lb[k].rgce) && ixti_valid(dn_val(lb[k].rgce).0, xtis@, sb) {
+                    let ix = dn_val(lb[k].rgce).0;
+                    if ix is Some && ix->Some_0 < xtis@.len() {
+                        let x = xtis@[ix->Some_0 as int];
+                        assert(supbooks@[x._isup_book as int] == is_self_supbook(sb[x._isup_book as int]));
+                    }
+                    assert(final_text_c(xtis@, sheet_names@, supbooks@, ix, dn_val(lb[k].rgce).1) == final_text(xtis@, sheet_names@, sb, ix, dn_val(lb[k].rgce).1));
+                }
             }
             //# C16.xls_defined_names_one_per_lbl_in_order
             assert(names_final(defined_names@, lb, xtis@, sheet_names@, supbooks_of(done)));
